@@ -95,7 +95,7 @@ func init() {
 	// cmatch: (sys text (probe...) table) -> ("err") | ("ok" (row...)), row =
 	//   ("verr" Match(string) MatchRequirement) | (MatchVersion MatchVersionPrerelease Set.MatchVersion Match(string) MatchRequirement)
 	// Match(string) is Constraint.Match on the candidate TEXT; MatchRequirement is
-	// resolve.MatchRequirement for npm (membership of the candidate in its result), -1 otherwise.
+	// resolve.MatchRequirement for npm, Maven and PyPI (membership of the candidate in its result), -1 otherwise.
 	register("cmatch", func(a sx.V) sx.V {
 		sys := sysOf(a.Nth(0))
 		c, err := sys.ParseConstraint(a.Nth(1).Str())
@@ -105,13 +105,20 @@ func init() {
 		texts := a.Nth(2).List()
 		ps := csParseProbes(sys, texts)
 		inReq := map[string]bool{}
-		if sys == semver.NPM {
+		rsys, viaResolve := resolve.NPM, sys == semver.NPM
+		switch sys {
+		case semver.Maven:
+			rsys, viaResolve = resolve.Maven, true
+		case semver.PyPI:
+			rsys, viaResolve = resolve.PyPI, true
+		}
+		if viaResolve {
 			var vs []resolve.Version
 			for _, t := range texts {
 				vs = append(vs, resolve.Version{VersionKey: resolve.VersionKey{
-					PackageKey: resolve.PackageKey{System: resolve.NPM, Name: "p"}, VersionType: resolve.Concrete, Version: t.Str()}})
+					PackageKey: resolve.PackageKey{System: rsys, Name: "p"}, VersionType: resolve.Concrete, Version: t.Str()}})
 			}
-			req := resolve.VersionKey{PackageKey: resolve.PackageKey{System: resolve.NPM, Name: "p"},
+			req := resolve.VersionKey{PackageKey: resolve.PackageKey{System: rsys, Name: "p"},
 				VersionType: resolve.Requirement, Version: a.Nth(1).Str()}
 			for _, m := range resolve.MatchRequirement(req, vs) {
 				inReq[m.Version] = true
@@ -121,7 +128,7 @@ func init() {
 		for k, p := range ps {
 			ms := sx.Int(csBit(c.Match(texts[k].Str())))
 			mr := sx.Int(-1)
-			if sys == semver.NPM {
+			if viaResolve {
 				mr = sx.Int(csBit(inReq[texts[k].Str()]))
 			}
 			if !p.ok {
